@@ -158,6 +158,8 @@ def enc(v, work=None):
         for n, t in _types().items():
             if t is v:
                 return {"ty": n}
+        if issubclass(v, _types()["Entity"]):
+            return {"ty": "Entity"}          # type(entity) is a concrete class; the universe only knows Entity
         raise NotExpressible(f"type {v}")
     cls = type(v).__name__
     if cls == "Workspace":
@@ -377,7 +379,7 @@ def gen_form_entry(rng, name, others, value_mode="domain"):
         kw["value"] = rng.choice(cl)
         if rng.chance(30):
             kw["multi_select"] = True
-            kw["value"] = {"l": rng.sample(cl, rng.range(1, 2))}
+            kw["value"] = {"l": rng.sample(cl, rng.range(0, 2))}
     elif t == "file_parameter":
         if rng.chance(60):
             kw["file_description"] = {"t": ["Chargeability"]}
@@ -394,9 +396,9 @@ def gen_form_entry(rng, name, others, value_mode="domain"):
             kw["mesh_type"] = {"t": [{"u": 0x202C5DB1A56D4004A3C9DBAF6F0B7CC0}]} if rng.chance(50) else {"l": []}
         if rng.chance(75):
             kw["value"] = rng.choice([{"u": objs[0]}, {"u": objs[1]}, None, "{00000000-0000-0000-0000-000000000020}"])
-        if rng.chance(20):
+        if rng.chance(30):
             kw["multi_select"] = True
-            kw["value"] = {"l": [{"u": o} for o in rng.sample(objs, rng.range(1, 2))]}
+            kw["value"] = {"l": [{"u": o} for o in rng.sample(objs, rng.range(0, 2))]}
     elif t == "data_parameter":
         par = rng.choice(others) if others and rng.chance(80) else ""
         kw["parent"] = par
